@@ -203,6 +203,23 @@ lst = [1, 2]
 def plain(x):
     y = x
     return y
+
+async def coro(x):
+    y = x
+    return y
+
+lam = lambda x: x + 1
+
+_ns = {}
+exec("def nosrc(x):" + chr(10) + "    y = x" + chr(10) + "    return y" + chr(10), _ns)
+nosrc = _ns["nosrc"]
+
+import functools
+part = functools.partial(plain, 1)
+
+class WithCallAndInit:
+    def __init__(self, x=0):
+        y = x
 '''
 
 TARGETS = [
@@ -215,6 +232,14 @@ TARGETS = [
     ("n > x", "type-error"),
     ("lst.append > x", "type-error"),
     ("lst > x", "type-error"),
+    ("coro > y", "type-error"),        # async def: a function, but not one ptera can instrument
+    ("lam > x", "type-error"),         # lambda: no def statement to rewrite
+    ("nosrc > y", "type-error"),       # no source code available
+    ("part > x", "type-error"),
+    ("obj > y", "type-error"),         # callable instance (its __call__ would have to be named)
+    ("WithCallAndInit > y", "type-error"),
+    ("WithCallAndInit.__init__ > y", "ok"),
+    ("obj.__call__ > y", "ok"),
 ]
 
 
